@@ -108,7 +108,7 @@ def check(R, F, P, cfg):
     S = Super(P, pe, opaque=DO2)
     ps = tables.normal_paths(S)
     rv = strip(ps[0].retval()) if len(ps) == 1 else None
-    ok = isinstance(rv, tuple) and rv[0] in ("ret", "call") and rv[1] == "std::ptr::eq" and {fmt(strip(a)).lstrip("*") for a in rv[2]} == {"this.inner", "other.inner"}
+    ok = isinstance(rv, tuple) and rv[0] in ("ret", "call") and rv[1] == "std::ptr::eq" and {fmt(strip(a)).lstrip("&*") for a in rv[2]} == {"this.inner", "other.inner"}
     R.inst("R20.2", "ptr_eq", ok, "ptr_eq = %s (required ptr::eq(this.inner, other.inner))" % fmt(rv), where=pe.span, cfg=cfg)
     if F.has("weak-ptrs"):
         wpe = anchor(F, "weak::Weak::<T>::ptr_eq")
